@@ -1,11 +1,15 @@
-"""C10 — see harness/props/dev_ctl.py (shared with the other control-endpoint properties)."""
-from harness.props import dev_ctl
+"""C10 — see harness/props/dev_ctl.py (event level, shared with the other control-endpoint properties) and
+harness/props/c07_cyc.py (cycle level, run through `extra_checks`)."""
+from harness.common import framework
+from harness.props import dev_ctl, c07_cyc
 
 PROP = "C10"
-LEAN_MODULES = ["LunaVerif.Props.C10"]
+LEAN_MODULES = ["LunaVerif.Props.C10"] + dev_ctl.CYC_MODULES
 DRIVER = dev_ctl.DRIVER
-REQUIRED_THEOREMS = ["unsupported_never_answered", "unsupported_first_request_stalled", "unsupported_setup_establishes_handling", "handling_step"]
-RULE = dev_ctl.RULE
+REQUIRED_THEOREMS = ["unsupported_never_answered", "unsupported_first_request_stalled", "unsupported_setup_establishes_handling", "handling_step",
+                     "unhandled_stalls", "unhandled_waits_silently", "unclaimed_request_stalls", "cycle_refines_event",
+                     "cycle_refines_event_run"]
+RULE = dev_ctl.RULE + dev_ctl.CYC_RULE
 ASSUMPTIONS = dev_ctl.ASSUMPTIONS
 PARTIAL = dev_ctl.PARTIAL["C10"]
 
@@ -15,4 +19,10 @@ def gen_cases(tier, rng):
 
 
 def run_case(desc):
+    if desc.get("mode") == "cyc":
+        return c07_cyc.run_case(desc)
     return dev_ctl.run_dev_case(desc, PROP)
+
+
+def extra_checks(tier, rng, proof):
+    return c07_cyc.extra_checks(tier, rng, proof, nproc=framework.NPROC, profiles=("c10",))
